@@ -56,7 +56,7 @@ def pick_len(rng):
 class C16(Engine):
     prop = "C16"
     title = "naken_asm never crashes, hangs or corrupts memory"
-    quick_budget = 45
+    quick_budget = 90
     quick_runs = 14500
     thorough_budget = 1200
     variants = ("small",)
